@@ -165,6 +165,8 @@ def run_wire(ev, vd, d, thorough):
     traces, meta = [], {}
     spins = 0
     for msgs in configs:
+        if spins >= 2:
+            break
         ids, frames = real_frames(msgs)
         lens = [len(f) - 20 for f in frames]
         eofs, total = eof_classes(lens)
@@ -189,14 +191,17 @@ def run_wire(ev, vd, d, thorough):
             for p in rr.prints:
                 if not isinstance(p, dict) or "reads" not in p:
                     continue
+                dl = common.deadline(30)
                 try:
-                    with common.deadline(30):
+                    with dl:
                         t = feed_and_receive(frames, ids, msgs, p["reads"])
+                    if dl.fired:
+                        raise common.Spinning()
                 except common.Spinning:
                     vd.violation({"what": f"framing: the receiver does not give control back (30 s): messages {[repr_msg(m) for m in msgs]} fed as reads "
                                           f"{p['reads']} (0 = end of stream)", "clause": "ReceiverSpins", "part": "wire"})
                     spins += 1
-                    if spins >= 3:
+                    if spins >= 2:
                         break
                     continue
                 t["tid"] = len(traces)
@@ -218,9 +223,12 @@ def run_wire(ev, vd, d, thorough):
     random.Random(7).shuffle(rest)
     n_listener = 0
     for p in few + rest[:(1200 if not thorough else 12000)]:
+        dl = common.deadline(30)
         try:
-            with common.deadline(30):
+            with dl:
                 t = listen_and_respond(cmds, ids, frames, p["reads"], 2.5)
+            if dl.fired:
+                raise common.Spinning()
         except common.Spinning:
             vd.violation({"what": f"framing: the listener of a NetworkClient does not give control back (30 s): commands {[c for c, _ in cmds]} fed as reads "
                                   f"{p['reads']} (0 = end of stream)", "clause": "ReceiverSpins", "part": "wire"})
